@@ -4,6 +4,7 @@ package c12
 import (
 	"archive/zip"
 	"bytes"
+	"compress/flate"
 	"encoding/json"
 	"fmt"
 	"hash/crc32"
@@ -504,6 +505,7 @@ func Run(r *fw.Run) {
 		}
 	})
 	targetSpellings(r, "")
+	sizeSweep(r)
 	// resources: a valid archive with more entries than the process may have descriptors open (sequential:
 	// the limit is process wide); extraction must not need a descriptor per entry
 	{
@@ -611,6 +613,112 @@ func targetSpellings(r *fw.Run, only string) {
 	}
 }
 
+// sizeCase: one archive whose file a/data declares `declared` bytes while its stream (stored or deflated)
+// holds declared+delta bytes. delta == 0 must extract to exactly the content; anything else must fail.
+func sizeCase(scratch string, declared, delta int, method uint16) string {
+	n := declared + delta
+	if n < 0 {
+		return ""
+	}
+	data := make([]byte, n)
+	for i := range data {
+		data[i] = byte('a' + (i*7+i/251)%26)
+	}
+	stream := data
+	if method == zip.Deflate {
+		var cb bytes.Buffer
+		fl, _ := flate.NewWriter(&cb, flate.BestSpeed)
+		fl.Write(data)
+		fl.Close()
+		stream = cb.Bytes()
+	}
+	var buf bytes.Buffer
+	zw := zip.NewWriter(&buf)
+	pre := goodMod + "@" + goodVers + "/"
+	w, _ := zw.Create(pre + "go.mod")
+	w.Write([]byte("module example.com/m\n"))
+	h := &zip.FileHeader{Name: pre + "a/data", Method: method, CRC32: crc32.ChecksumIEEE(data), CompressedSize64: uint64(len(stream)), UncompressedSize64: uint64(declared)}
+	rw, err := zw.CreateRaw(h)
+	if err != nil {
+		return ""
+	}
+	rw.Write(stream)
+	w, _ = zw.Create(pre + "z.txt")
+	w.Write([]byte("last\n"))
+	zw.Close()
+	id := counter.Add(1)
+	sandbox := filepath.Join(scratch, "sz"+strconv.FormatInt(id, 10))
+	os.MkdirAll(sandbox, 0o755)
+	defer os.RemoveAll(sandbox)
+	zp := filepath.Join(sandbox, "m.zip")
+	os.WriteFile(zp, buf.Bytes(), 0o644)
+	out := filepath.Join(sandbox, "out")
+	err = modzip.Unzip(out, module.Version{Path: goodMod, Version: goodVers}, zp)
+	if delta != 0 {
+		if err == nil {
+			got, _ := os.ReadFile(filepath.Join(out, "a", "data"))
+			return fmt.Sprintf("Unzip succeeded although a/data declares %d bytes and its stream holds %d (extracted %d bytes)", declared, n, len(got))
+		}
+		return ""
+	}
+	if err != nil {
+		return fmt.Sprintf("honest archive with a file of %d bytes does not extract: %v", declared, err)
+	}
+	got, rerr := os.ReadFile(filepath.Join(out, "a", "data"))
+	if rerr != nil || !bytes.Equal(got, data) {
+		return fmt.Sprintf("honest archive with a file of %d bytes: extracted a/data differs (%d bytes, %v)", declared, len(got), rerr)
+	}
+	if z, _ := os.ReadFile(filepath.Join(out, "z.txt")); string(z) != "last\n" {
+		return fmt.Sprintf("honest archive with a file of %d bytes: the entry after it was extracted as %q", declared, z)
+	}
+	return ""
+}
+
+// sizeSweep runs sizeCase for every declared size 0..dense and around every power of two up to 4 MiB, with a
+// stream one byte short, exact, one byte long and twice as long, stored and deflated.
+func sizeSweep(r *fw.Run) {
+	dense := r.Pick(2100, 8400)
+	var sizes []int
+	for d := 0; d <= dense; d++ {
+		sizes = append(sizes, d)
+	}
+	for k := 12; k <= 22; k++ {
+		for _, d := range []int{1<<k - 1, 1 << k, 1<<k + 1, 3 << (k - 1)} {
+			if d > dense {
+				sizes = append(sizes, d)
+			}
+		}
+	}
+	r.Bounds["declared_size_sweep"] = fmt.Sprintf("declared sizes 0..%d and 2^k-1, 2^k, 2^k+1, 3*2^(k-1) for k<=22 x stream {one byte short, exact, one byte long, twice as long} x {stored, deflated}", dense)
+	scratch := r.Scratch()
+	fw.Parallel(16, func(sh int) {
+		l := fw.NewLocal()
+		defer r.Merge(l)
+		for i := sh; i < len(sizes); i += 16 {
+			d := sizes[i]
+			for _, delta := range []int{-1, 0, 1, d} {
+				if delta == 0 && d == 0 || delta == d && d <= 1 {
+					continue
+				}
+				for _, method := range []uint16{zip.Store, zip.Deflate} {
+					l.States++
+					l.Execs++
+					l.Transitions++
+					if msg := sizeCase(scratch, d, delta, method); msg != "" {
+						r.Violation(fmt.Sprintf("size-sweep:%d:%d:%d", d, delta, method), msg, caseT{ModPath: goodMod, Version: goodVers, Entries: []entryT{{Name: strconv.QuoteToASCII(fmt.Sprintf("size-sweep:%d:%d:%d", d, delta, method)), Size: "declared"}}})
+						l.Outcomes["size-sweep:VIOLATION"]++
+					} else if delta != 0 {
+						l.Nontrivial++
+						l.Outcomes["size-sweep:refused"]++
+					} else {
+						l.Outcomes["size-sweep:extracted"]++
+					}
+				}
+			}
+		}
+	})
+}
+
 func Replay(r *fw.Run, raw json.RawMessage) {
 	var c caseT
 	if err := json.Unmarshal(raw, &c); err != nil {
@@ -627,6 +735,18 @@ func Replay(r *fw.Run, raw json.RawMessage) {
 			fw.WithFDLimit(160, func() { msg, _ = one(r.Scratch(), goodMod, goodVers, es) })
 			if msg != "" {
 				r.Violation("fd-limit", msg, c)
+			}
+			return
+		}
+		if n, _ := strconv.Unquote(c.Entries[0].Name); strings.HasPrefix(n, "size-sweep:") {
+			var d, delta int
+			var method uint16
+			fmt.Sscanf(n, "size-sweep:%d:%d:%d", &d, &delta, &method)
+			r.Sample(c)
+			r.States.Add(1)
+			r.Execs.Add(1)
+			if msg := sizeCase(r.Scratch(), d, delta, method); msg != "" {
+				r.Violation(n, msg, c)
 			}
 			return
 		}
